@@ -22,7 +22,6 @@ import (
 	"unsafe"
 
 	"github.com/google/uuid"
-	"github.com/hprose/hprose-golang/v3/internal/convert"
 	"github.com/modern-go/reflect2"
 )
 
@@ -271,10 +270,11 @@ func init() {
 		*(**big.Rat)(reflect2.PtrOf(p)) = dec.stringToBigRat(*(*string)(reflect2.PtrOf(o)), bigRatType)
 	})
 	RegisterConverter(stringType, bytesType, func(dec *Decoder, o interface{}, p interface{}) {
-		*(*[]byte)(reflect2.PtrOf(p)) = convert.ToUnsafeBytes(*(*string)(reflect2.PtrOf(o)))
+		// a copy: bytes that share the storage of a Go string would let a write change the string
+		*(*[]byte)(reflect2.PtrOf(p)) = []byte(*(*string)(reflect2.PtrOf(o)))
 	})
 	RegisterConverter(bytesType, stringType, func(dec *Decoder, o interface{}, p interface{}) {
-		*(*string)(reflect2.PtrOf(p)) = convert.ToUnsafeString(*(*[]byte)(reflect2.PtrOf(o)))
+		*(*string)(reflect2.PtrOf(p)) = string(*(*[]byte)(reflect2.PtrOf(o)))
 	})
 	RegisterConverter(stringType, timeType, func(dec *Decoder, o interface{}, p interface{}) {
 		*(*time.Time)(reflect2.PtrOf(p)) = dec.stringToTime(*(*string)(reflect2.PtrOf(o)))
